@@ -67,6 +67,7 @@ type sshdObservation struct {
 	Sent     []map[string]any `json:"sent"`
 	Counters map[string]int   `json:"counters"`
 	Panic    string           `json:"panic"`
+	Hang     bool             `json:"hang"`
 }
 
 const sshdReplayTest = `package sshd
@@ -80,6 +81,7 @@ import (
 	"os"
 	"strings"
 	"testing"
+	"time"
 
 	"github.com/metal-toolbox/auditevent"
 	"github.com/prometheus/client_golang/prometheus"
@@ -103,16 +105,27 @@ func (w *govcFailWriter) Write(p []byte) (int, error) {
 	return w.buf.Write(p)
 }
 
+type govcIn struct {
+	Line, PID string
+	FailAt    int
+	Cancel    bool
+}
+
 func TestGovcReplaySshd(t *testing.T) {
-	var in struct {
-		Line, PID string
-		FailAt    int
-		Cancel    bool
-	}
-	if err := json.Unmarshal([]byte(os.Getenv("GOVC_REPLAY_INPUT")), &in); err != nil {
+	var ins []govcIn
+	if err := json.Unmarshal([]byte(os.Getenv("GOVC_REPLAY_INPUT")), &ins); err != nil {
 		t.Fatal(err)
 	}
 	SetLogger(zap.NewNop().Sugar())
+	var all []map[string]any
+	for _, in := range ins {
+		all = append(all, govcRunOne(in))
+	}
+	b, _ := json.Marshal(all)
+	fmt.Println("GOVC-OBS " + string(b))
+}
+
+func govcRunOne(in govcIn) map[string]any {
 	w := &govcFailWriter{failAt: in.FailAt}
 	reg := prometheus.NewRegistry()
 	ctx, cancel := context.WithCancel(context.Background())
@@ -123,18 +136,26 @@ func TestGovcReplaySshd(t *testing.T) {
 		logins = make(chan common.RemoteUserLogin) // unready correlator
 	}
 	obs := map[string]any{}
-	func() {
+	done := make(chan struct{})
+	go func() {
+		defer close(done)
 		defer func() {
 			if r := recover(); r != nil {
 				obs["panic"] = fmt.Sprint(r)
 			}
 		}()
-		p := NewSshdProcessor(ctx, logins, "node-x", "machine-y", auditevent.NewDefaultAuditEventWriter(w), metrics.NewPrometheusMetricsProviderForRegisterer(reg))
+		// the processor is constructed with a context of its own (never cancelled); the per-call context governs the hand-off
+		p := NewSshdProcessor(context.Background(), logins, "node-x", "machine-y", auditevent.NewDefaultAuditEventWriter(w), metrics.NewPrometheusMetricsProviderForRegisterer(reg))
 		err := p.ProcessSshdLogEntry(ctx, SshdLogEntry{Message: in.Line, PID: in.PID})
 		if err != nil {
 			obs["err"] = err.Error()
 		}
 	}()
+	select {
+	case <-done:
+	case <-time.After(2 * time.Second):
+		return map[string]any{"hang": true, "counters": map[string]int{}}
+	}
 	var events []map[string]any
 	for _, l := range strings.Split(w.buf.String(), "\n") {
 		if strings.TrimSpace(l) == "" {
@@ -173,8 +194,7 @@ func TestGovcReplaySshd(t *testing.T) {
 		}
 	}
 	obs["counters"] = counters
-	b, _ := json.Marshal(obs)
-	fmt.Println("GOVC-OBS " + string(b))
+	return obs
 }
 `
 
@@ -186,13 +206,25 @@ type sshdReplayInput struct {
 }
 
 func replaySshdLine(repo string, in sshdReplayInput) (*sshdObservation, string, error) {
-	ib, _ := json.Marshal(in)
+	obs, out, err := replaySshdLines(repo, []sshdReplayInput{in})
+	if err != nil || len(obs) != 1 {
+		if err == nil {
+			err = fmt.Errorf("no observation in replay output")
+		}
+		return nil, out, err
+	}
+	return &obs[0], out, nil
+}
+
+// replaySshdLines runs several inputs in one test invocation.
+func replaySshdLines(repo string, ins []sshdReplayInput) ([]sshdObservation, string, error) {
+	ib, _ := json.Marshal(ins)
 	out, err := runOverlayTest(repo, "processors/sshd", sshdReplayTest, "TestGovcReplaySshd", []string{"GOVC_REPLAY_INPUT=" + string(ib)})
 	for _, l := range strings.Split(out, "\n") {
 		if i := strings.Index(l, "GOVC-OBS "); i >= 0 {
-			var obs sshdObservation
+			var obs []sshdObservation
 			if e := json.Unmarshal([]byte(l[i+9:]), &obs); e == nil {
-				return &obs, out, nil
+				return obs, out, nil
 			}
 		}
 	}
